@@ -151,6 +151,14 @@ def run(rep):
             rep.ob("C20.b/pair", q, not bad, "%d push(es), each popped on every normal path" % len(res) if not bad else
                    "%s pushes onto the inclusion history at line %s but can return without popping: later includes of that file are "
                    "reported as circular (or the enclosing file is popped too early)" % (q, bad), "%s:%s" % (c2.file, bad[0] if bad else pushes[0][2].get("l")))
+            # and the other way round: nothing is popped that this function did not push
+            res2 = guard.must_precede(c2, lambda el: _calls(el, "addDocumentURIToCurrentInclusionHistoryStack"),
+                                      lambda el: _calls(el, "popFromCurrentInclusionHistoryStack"))
+            bad2 = [el.get("l") for b, i, el, ok in res2 if not ok]
+            rep.ob("C20.b/unpaired-pop", q, not bad2, "%d pop(s), each behind a push on every path" % len(res2) if not bad2 else
+                   "%s pops the inclusion history at line %s on a path on which it pushed nothing (a text inclusion, a failed include): "
+                   "the entry of an enclosing document still being processed is removed, and a loop through it is no longer detected" % (q, bad2),
+                   "%s:%s" % (c2.file, bad2[0] if bad2 else pushes[0][2].get("l")))
             # recursion between push and pop
             reach = set()
             for b, i, el in pushes:
